@@ -200,14 +200,33 @@ class ExprMixin:
         try:
             c = self.pure_prop(e.test, env)
             (a, ta), (b, tb) = self.pure_expr(e.body, env), self.pure_expr(e.orelse, env)
+            j = join(ta, tb)
+            if j is None:
+                raise Unsupported("branches of different types: " + src(e))
+            return k("(if {} then {} else {})".format(c, coerce(a, ta, j), coerce(b, tb, j)), j)
         except Impure:
             if self.pure_mode:
                 raise
-            raise Unsupported("conditional expression with a raising part: " + src(e))
-        j = join(ta, tb)
+        # a branch can raise: each branch is a monadic computation, the value is bound
+        box = {}
+
+        def branch(node, tag):
+            def kk(c2, t2):
+                box[tag] = t2
+                return "«IFX{}»".format(tag) + "⟨" + c2 + "⟩"
+            return self.expr(node, env, kk)
+        a = branch(e.body, "a")
+        b = branch(e.orelse, "b")
+        j = join(box["a"], box["b"])
         if j is None:
             raise Unsupported("branches of different types: " + src(e))
-        return k("(if {} then {} else {})".format(c, coerce(a, ta, j), coerce(b, tb, j)), j)
+        import re
+
+        def close(code, tag):
+            return re.sub("«IFX" + tag + "»⟨(.*?)⟩", lambda m: "Except.ok " + coerce(m.group(1), box[tag], j), code, flags=re.S)
+        return self.cond(e.test, env, lambda: close(a, "a"), lambda: close(b, "b")) if False else \
+            self.bind("if {} then\n{}\nelse\n{}".format(self.pure_prop(e.test, env), indent(close(a, "a")), indent(close(b, "b"))),
+                      j, k, "v")
 
     def e_Compare(self, e, env, k):
         return self.boolval(e, env, k)
@@ -223,7 +242,7 @@ class ExprMixin:
         except Impure:
             if self.pure_mode:
                 raise
-        return self.cond(e, env, lambda: k("true", BOOL), lambda: k("false", BOOL), dup_ok=False, k=k)
+        return self.bind(self.cond_value(e, env), BOOL, k, "c")
 
     # ------------------------------------------------------------ conditions
     def pure_prop(self, e, env):
@@ -308,6 +327,13 @@ class ExprMixin:
         sym = CMP.get(type(op))
         if sym is None:
             raise Unsupported("comparison " + src(whole))
+        if isinstance(op, (ast.Eq, ast.NotEq)) and (isinstance(ta, TUnion) != isinstance(tb, TUnion)):
+            (u, tu), (x, tx) = ((a, ta), (b, tb)) if isinstance(ta, TUnion) else ((b, tb), (a, ta))
+            if join(tu.a, tx) is not None and not isinstance(tx, (TList, TRange, TTuple)):
+                return "({} {} Sum.inl {})".format(u, sym, coerce(x, tx, tu.a))
+            if join(tu.b, tx) is not None:
+                return "({} {} Sum.inr {})".format(u, sym, coerce(x, tx, tu.b))
+            raise Unsupported("== between {} and {}".format(ta.lean(), tb.lean()))
         if isinstance(op, (ast.Eq, ast.NotEq)):
             j = join(ta, tb)
             if j is None or isinstance(j, (TAbs, TObj, TErased)):
@@ -327,17 +353,18 @@ class ExprMixin:
                 raise Unsupported("ordering on {}: {}".format(t.lean(), src(whole)))
         return "({} {} {})".format(xs[0], sym, xs[1])
 
-    def cond(self, e, env, kt, kf, dup_ok=True, k=None):
+    def cond(self, e, env, kt, kf):
         """branch on a condition that may need binds (short-circuit order kept).
-        kt()/kf() give the code of the two continuations."""
+        kt(env')/kf(env') give the code of the two continuations; env' records that an optional variable
+        which was compared (ordering) is not None from there on."""
         try:
             p = self.pure_prop(e, env)
-            return "if {} then\n{}\nelse\n{}".format(p, indent(kt()), indent(kf()))
+            return "if {} then\n{}\nelse\n{}".format(p, indent(kt(env)), indent(kf(env)))
         except Impure:
             if self.pure_mode:
                 raise
         if isinstance(e, ast.UnaryOp) and isinstance(e.op, ast.Not):
-            return self.cond(e.operand, env, kf, kt, dup_ok, k)
+            return self.cond(e.operand, env, kf, kt)
         if isinstance(e, ast.BoolOp):
             # bind the truth value (no duplication of the continuations)
             def chain(vals):
@@ -350,7 +377,7 @@ class ExprMixin:
                 return "({}) >>= fun b => if b = true then Except.ok true else ({})".format(first, rest)
             code = chain(e.values)
             return self.bind(code, BOOL, lambda b, _t: "if {} = true then\n{}\nelse\n{}".format(
-                b, indent(kt()), indent(kf())), "c")
+                b, indent(kt(env)), indent(kf(env))), "c")
         if isinstance(e, ast.Compare):
             # operands first (left to right), then the test; `None` operands of an ordering raise TypeError
             operands = [e.left] + list(e.comparators)
@@ -360,25 +387,31 @@ class ExprMixin:
                     self.pure_expr(o, env)
 
             def fin(vs):
-                def unwrap(i, acc):
+                def unwrap(i, acc, env2):
                     if i == len(vs):
                         parts = [self.compare(op, acc[j], acc[j + 1], e) for j, op in enumerate(e.ops)]
                         p = parts[0] if len(parts) == 1 else "(" + " ∧ ".join(parts) + ")"
-                        return "if {} then\n{}\nelse\n{}".format(p, indent(kt()), indent(kf()))
+                        return "if {} then\n{}\nelse\n{}".format(p, indent(kt(env2)), indent(kf(env2)))
                     c, t = vs[i]
                     t = resolve(t)
                     ordering = any(not isinstance(op, (ast.Is, ast.IsNot, ast.Eq, ast.NotEq, ast.In, ast.NotIn))
                                    for op in e.ops[max(0, i - 1):i + 1])
                     if ordering and isinstance(t, TOpt) and isinstance(resolve(t.elem), TInt):
-                        return self.bind("Py.unNone {}".format(c), INT, lambda v, tv: unwrap(i + 1, acc + [(v, tv)]), "v")
-                    return unwrap(i + 1, acc + [(c, t)])
-                return unwrap(0, [])
+                        def after(v, tv):
+                            env3 = env2
+                            if isinstance(operands[i], ast.Name) and operands[i].id in env2:
+                                env3 = dict(env2)
+                                env3[operands[i].id] = (v, tv)
+                            return unwrap(i + 1, acc + [(v, tv)], env3)
+                        return self.bind("Py.unNone {}".format(c), INT, after, "v")
+                    return unwrap(i + 1, acc + [(c, t)], env2)
+                return unwrap(0, [], env)
             return self.exprs(operands, env, fin)
-        return self.expr(e, env, lambda c, t: "if {} = true then\n{}\nelse\n{}".format(c, indent(kt()), indent(kf())))
+        return self.expr(e, env, lambda c, t: "if {} = true then\n{}\nelse\n{}".format(c, indent(kt(env)), indent(kf(env))))
 
     def cond_value(self, e, env):
         """monadic Bool code (`Except Err Bool`) of a condition"""
-        return self.cond(e, env, lambda: "Except.ok true", lambda: "Except.ok false")
+        return self.cond(e, env, lambda _e: "Except.ok true", lambda _e: "Except.ok false")
 
 
 class TyRef:
